@@ -10,13 +10,14 @@ import (
 
 	"ariga.io/atlas/sql/migrate"
 	"ariga.io/atlas/sql/mysql"
+	"verifharness/internal/hx"
 )
 
 // c11MyClean: the first-run gate of the MySQL family through the REAL driver on the in-memory stand-in, for a
 // connection bound to NO database (the whole server is managed) and for one bound to a database. With no
 // recorded revision the run starts only on a server that holds nothing but - possibly - the revision table in
 // its own database: every other database, also an empty one, is something the directory did not create.
-func c11MyClean(e *Env) {
+func c11MyClean(e *Env, pool *hx.Pool) {
 	ctx := context.Background()
 	type srv struct {
 		name  string
@@ -80,6 +81,27 @@ func c11MyClean(e *Env) {
 					names = append(names, n)
 				}
 				sort.Strings(names)
+				// the Lean model of the gate (Atlas.Clean, characterised by Props.C11.gate_mysql / gate_bound) on the same state
+				var mschemas []map[string]any
+				for _, n := range names {
+					if bound != "" && n != bound {
+						continue
+					}
+					ts := append([]string{}, per[n]...)
+					sort.Strings(ts)
+					mschemas = append(mschemas, map[string]any{"name": n, "tables": ts})
+				}
+				var mans struct {
+					Clean bool `json:"clean"`
+				}
+				if err := pool.AskInto(map[string]any{"op": "clean.check", "dialect": "mysql", "bound": bound != "", "schemas": mschemas, "rev_schema": rt.Schema, "rev_table": rt.Name}, &mans); err != nil {
+					e.Res.Violate("no-failing-input-found", "model-error", err.Error(), "model", nil)
+					return
+				}
+				if mans.Clean != clean {
+					e.Res.Disagree()
+					e.Res.Violate("no-failing-input-found", "corr-clean-model-mismatch", fmt.Sprintf("mysql (bound %q) %v: the Lean gate says clean=%v, the harness oracle %v", bound, mschemas, mans.Clean, clean), "correspondence Atlas.Clean", nil)
+				}
 				id := fmt.Sprintf("mysql first run (bound to %q): server holds %s; revision database state %d", bound, d.name, rev)
 				rep := map[string]any{"case": id, "setup": d.setup, "databases": names}
 				e.Res.Count("mysql-clean/"+id, !clean, "mysql-first-run-gate", fmt.Sprintf("mysql-clean:%v", clean))
